@@ -43,22 +43,24 @@ LEVEL_NOTE = (
 )
 TECHNIQUE = "scripted-RNG enumeration of the real sampler (exact distribution) + per-rule draw partition monitor"
 ASSUMPTIONS = ["every random decision goes through the five hooked names (a run that draws 0 decisions is flagged)"]
-N = {"quick": 5, "thorough": 7}
-BUDGET = {"quick": 1500, "thorough": 20000}
+N = {"quick": 5, "thorough": 6}
+BUDGET = {"quick": 1500, "thorough": 6000}
 FLOORS = {
     "quick": {"nontrivial": 40, "counters": {"sampling.distributions_enumerated": 1200,
                                               "sampling.distributions_enumerated_3plus_objects": 200,
                                               "sampling.leaves_enumerated": 60000,
                                               "sampling.local_draws_forced": 12000,
                                               "sampling.refusals_checked": 800}},
-    "thorough": {"nontrivial": 1200, "counters": {"sampling.distributions_enumerated": 25000,
-                                                   "sampling.distributions_enumerated_3plus_objects": 5000,
-                                                   "sampling.leaves_enumerated": 3000000,
-                                                   "sampling.local_draws_forced": 300000,
-                                                   "sampling.refusals_checked": 16000}},
+    "thorough": {"nontrivial": 300, "counters": {"sampling.distributions_enumerated": 10000,
+                                                  "sampling.distributions_enumerated_3plus_objects": 1500,
+                                                  "sampling.leaves_enumerated": 1000000,
+                                                  "sampling.local_draws_forced": 100000,
+                                                  "sampling.refusals_checked": 6000}},
 }
 CASE_TIMEOUT = {"quick": 90, "thorough": 300}
-SIZES = {"quick": 300, "thorough": 6000}
+SIZES = {"quick": 300, "thorough": 2400}
+# wall-clock budget per shard (cases beyond it are counted as truncated, not judged)
+SHARD_BUDGET = {"thorough": 1500}
 
 
 def shard_setup(tier):
